@@ -174,6 +174,23 @@ def regen_footprint(flex, src, work):
         ext[pref] = {l.split()[-1] for l in nm.split('\n') if len(l.split()) >= 2 and l.split()[-2] in 'TDBRCG'}
         objs[pref] = cf + '.o'
     clashes += sorted(ext['aa'] & ext['bb'])
+    # non-reentrant scanners with more of their optional state (%array: yytext / yytext_ptr; REJECT: the
+    # state buffer; stack; yylineno; yymore)
+    for optset in (['array'], ['array', 'yylineno', 'stack', 'reject', 'yymore'], ['yylineno', 'stack', 'reject', 'yymore', 'debug']):
+        e2 = {}
+        for pref in ('ee', 'ff'):
+            lf = os.path.join(work, 'fp_p%s.l' % pref)
+            open(lf, 'w').write('%%option noyywrap prefix="%s" %s\n%%%%\na+ return 1;\n.|\\n ;\n%%%%\n' % (pref, ' '.join(optset)))
+            cf = lf[:-2] + '.c'
+            rc, so, se = flexrun.run_flex(flex, lf, cf, [])
+            pc = subprocess.run(['gcc', '-w', '-c', '-I', src, cf, '-o', cf + '.o'], stdout=subprocess.PIPE, stderr=subprocess.STDOUT, text=True)
+            if rc != 0 or pc.returncode != 0:
+                clashes.append('%s:<scanner with prefix %s does not build>' % ('+'.join(optset), pref))
+                e2[pref] = set()
+                continue
+            nm = subprocess.run(['nm', cf + '.o'], stdout=subprocess.PIPE, text=True).stdout
+            e2[pref] = {l.split()[-1] for l in nm.split('\n') if len(l.split()) >= 2 and l.split()[-2] in 'TDBRCG'}
+        clashes += ['%s:%s' % ('+'.join(optset), x) for x in sorted(e2['ee'] & e2['ff'])]
     # the same for two c99 scanners
     for pref in ('cc', 'dd'):
         lf = os.path.join(work, 'fp_p%s.l' % pref)
@@ -243,7 +260,7 @@ def run(ctx):
         ctx.violation('two scanners with different prefixes cannot be linked into one program: ' + linkout, {'output': linkout})
     for b in broken:
         ctx.violation('proof obligation broken: %s (writable globals: %s; common externals of two prefixes: %s)' % (
-            b, [f for f in facts if f[1]], clashes), {'broken': b, 'facts': facts, 'clashes': clashes}, no_input=(nprob == 0))
+            b, [f for f in facts if f[1]], clashes), {'broken': b, 'facts': facts, 'clashes': clashes}, no_input=(nprob == 0 and not clashes and not [f for f in facts if f[1]]))
     cov = {
         'explanation': 'kernel-checked: any interleaving of steps of machines with disjoint state gives each its solo result '
                        '(interleave_independent); decided on facts regenerated by nm from scanners generated in this run: a '
